@@ -13,7 +13,7 @@ import (
 
 type latticePoint struct{ Field, Value string }
 
-const c16Bases = 6
+const c16Bases = 7
 
 var intLattice = []string{"<absent>", "0", "-1", "1", "2147483647", "10%", "0%", "200%", "abc%", "50"}
 var durLattice = []string{"<absent>", "0s", "-1s", "500ms", "1s", "10m"}
@@ -138,6 +138,8 @@ func c16Base(i int) (StrategyDef, string) {
 		return StrategyDef{ReconcileFrequency: "10s", SlowStartInterval: "10s", Canary: &CanaryDef{Replicas: "2", ValidationMode: "manual"}}, "auto"
 	case 3: // controller-level default manual
 		return StrategyDef{ReconcileFrequency: "10s", SlowStartInterval: "1m", Canary: &CanaryDef{Replicas: "1"}}, "manual"
+	case 6: // auto canary with auto-pause switched off and auto-fail on: the timeout rule must not depend on auto-pause
+		return StrategyDef{ReconcileFrequency: "10s", SlowStartInterval: "10s", Canary: &CanaryDef{Replicas: "1", Duration: "2m", ValidationMode: "auto", AutoPauseEnabled: bptr(false), AutoFailEnabled: bptr(true), AutoFailMaxRestarts: i32(3), CanaryTimeout: "10m"}}, "auto"
 	case 5: // manual validation with both automatisms switched off
 		return StrategyDef{ReconcileFrequency: "10s", SlowStartInterval: "10s", Canary: &CanaryDef{Replicas: "1", ValidationMode: "manual", AutoPauseEnabled: bptr(false), AutoFailEnabled: bptr(false)}}, "auto"
 	default: // fully spelled out: every field the defaulted-recogniser inspects is set, so that a
